@@ -583,6 +583,9 @@ def getitem(eng, v, k):
         kk, found = _cd_find(eng, v, k)
         if found:
             return v.cd[kk]
+        if v.default is not None and not eng.spec:
+            v.cd[k] = v.default(eng)          # defaultdict: a missing key is inserted with the default
+            return v.cd[k]
         eng.maybe_raise(False, 'KeyError')
         raise EngineError('missing key in spec')
     if isinstance(v, Box) and v.ty is None:
@@ -1324,6 +1327,9 @@ def list_pop(eng, b, idx=-1):
 
 
 def list_index(eng, b, x):
+    if isinstance(b, Box) and b.ty is None:
+        eng.maybe_raise(False, 'ValueError')       # an empty list has no such element
+        raise EngineError('index in an empty list (spec)')
     ty = type_of(b)
     e = to_z3(b)
     k = _coerce_key(x, ty.t)
@@ -1760,10 +1766,12 @@ def concretize(eng, v, m, cap=8):
     def ev(e):
         return m.eval(e, model_completion=True)
     if isinstance(v, Box):
+        if v.ty is None and v.cd is not None:
+            return {'__map__': [[concretize(eng, k, m, cap), concretize(eng, x, m, cap)] for k, x in v.cd.items()], 'n': len(v.cd)}
         if v.ty is None:
             return {'list': [], 'dict': {}, 'set': []}[v.kind]
         v = SV(v.ty, v.e)
-    if isinstance(v, tuple):
+    if isinstance(v, (tuple, list)):
         return [concretize(eng, x, m, cap) for x in v]
     if isinstance(v, Obj):
         return {'__obj__': v.cls, **{k: concretize(eng, x, m, cap) for k, x in v.attrs.items()}}
